@@ -445,7 +445,22 @@ func (w *vWorld) execCertPolicy(c map[string]interface{}) (map[string]interface{
 				target = norm + "x"
 			}
 		}
-		q.Path = "/certgen/" + url.PathEscape(target) + "?type=" + path
+		esc := url.PathEscape(target)
+		other := "bob"
+		if norm == "bob" {
+			other = "alice"
+		}
+		switch vStr(c, "target") {
+		case "other/self":
+			esc = other + "/" + url.PathEscape(norm)
+		case "self/":
+			esc = url.PathEscape(norm) + "/"
+		case "self/other":
+			esc = url.PathEscape(norm) + "/" + other
+		case "./self":
+			esc = "./" + url.PathEscape(norm)
+		}
+		q.Path = "/certgen/" + esc + "?type=" + path
 		if vStr(c, "world") == "groups" {
 			q.Path += "&addGroups=true"
 		}
